@@ -127,11 +127,67 @@ def run(tier, seed):
     finally:
         shutil.rmtree(root, ignore_errors=True)
     return [common.result(
-        "C02.materialize.deps_listed_once_and_resolved", ["C02", "C20", "C14"], FUNCTION,
+        "C02.materialize.deps_listed_once_and_resolved", ["C02", "C20", "C14", "C09"], FUNCTION,
         "listing dirs %r x all dependency lists of length <= %d over %d spellings (relative, //p:n, //p/:n of 4 tasks, 3 malformed)" % (DIRS, max_len, len(pool)),
         exhaustive=True, evaluations=evaluations, distinct_nontrivial=nontrivial,
         rule="distinct (listing dir, dependency list); non-trivial = non-empty well-formed list (resolved against an independent resolver) or a list naming one task twice",
         failures=failures, samples=samples, wall_s=time.time() - t0, n_failures=n_fail)]
+
+
+def _deps_output_paths(tier):
+    """C07: COND_DEPS is built from TaskType.get_deps_output_paths: the output directory of EVERY direct dependency
+    that has one, in declared order -- also when dependencies in different directories share a task name (legal for
+    run tasks; only combine() forbids it)."""
+    from conductor.task_identifier import TaskIdentifier
+    t0 = time.time()
+    pool = [("a", "data", "run_command"), ("b", "data", "run_command"), ("c", "data", "run_command"), ("mid", "other", "run_command"),
+            ("", "plain", "run_command"), ("g", "grp", "group"), ("a", "grp", "group")]
+    max_len = 3 if tier == "quick" else 4
+    root = tempfile.mkdtemp(prefix="verif-")
+    failures, samples = [], []
+    ev = nt = nf = 0
+    try:
+        fac = graphs.IndexFactory(root)
+        rootp = pathlib.Path(root)
+        for n in range(0, max_len + 1):
+            for deps in itertools.permutations(pool, n):
+                files = {}
+                for (d, nm, kind) in deps:
+                    files.setdefault(pathlib.Path(d, "COND"), {})[nm] = graphs.make_raw_task(kind, nm, [], rootp / d / "COND")
+                dep_strs = ["//%s:%s" % (d, nm) for (d, nm, _k) in deps]
+                files.setdefault(pathlib.Path("top", "COND"), {})["top"] = graphs.make_raw_task("run_command", "top", dep_strs, rootp / "top" / "COND")
+                ti = fac.make(files)
+                ident = TaskIdentifier(pathlib.Path("top"), "top")
+                ti.load_transitive_closure(ident)
+                ctx = graphs.StubContext(root, ti)
+                got = [str(pathlib.Path(p).relative_to(rootp)) for p in ti.get_task(ident).get_deps_output_paths(ctx)]
+                want = [str(pathlib.Path("cond-out", d, nm + ".task")) for (d, nm, kind) in deps if kind != "group"]
+                ev += 1
+                names = [nm for (_d, nm, k) in deps if k != "group"]
+                if len(set(names)) < len(names):
+                    nt += 1
+                    if len(samples) < 2:
+                        samples.append({"deps": dep_strs})
+                if got != want:
+                    nf += 1
+                    cls = "dependency-with-a-shared-name-dropped" if len(got) < len(want) else ("declared-order-not-kept" if sorted(got) == sorted(want) else "wrong-directories")
+                    if len(failures) < 5:
+                        failures.append({"clause": "every_dependency_in_declared_order", "class": cls, "input": {"deps": dep_strs}, "expected": want, "observed": got})
+    finally:
+        shutil.rmtree(root, ignore_errors=True)
+    return common.result(
+        "C07.deps_output_paths.every_dependency_in_declared_order", ["C07", "C18"], "task_types/base.py::TaskType.get_deps_output_paths",
+        "all ordered selections of <= %d dependencies from 7 tasks in 6 directories (three run_commands named `data`, two groups without output)" % max_len,
+        exhaustive=True, evaluations=ev, distinct_nontrivial=nt,
+        rule="distinct ordered dependency lists; non-trivial = two dependencies with an output directory share a task name",
+        failures=failures, samples=samples, wall_s=time.time() - t0, n_failures=nf)
+
+
+_run_materialize = run
+
+
+def run(tier, seed):        # noqa: F811
+    return _run_materialize(tier, seed) + [_deps_output_paths(tier)]
 
 
 if __name__ == "__main__":
